@@ -70,6 +70,12 @@ func vNewGate() *vGateEnv {
 		verifAssume(strings.Count(acc, ",") <= 1)
 		h["Accept"] = []string{acc}
 	}
+	if ndBool("client-sends-forwarding-headers") {
+		// reverse-proxy mode is off in these harnesses: whatever a client puts here describes nothing
+		h["X-Forwarded-Uri"] = []string{ndString("x-forwarded-uri")}
+		h["X-Forwarded-Method"] = []string{ndString("x-forwarded-method")}
+		h["X-Forwarded-Host"] = []string{ndString("x-forwarded-host")}
+	}
 	req := &http.Request{Method: method, URL: &url.URL{Path: path}, Header: h, RemoteAddr: "192.0.2.1:4000", Host: "app.example"}
 	if ndBool("has-session") {
 		g.scope.Session = vSessionMain("sess")
@@ -89,7 +95,7 @@ func (g *vGateEnv) bypass() bool {
 }
 
 // Proxy forwards upstream only for a bypass or a valid, authorised session (validator and provider consulted on every request); refusals are 401/403/sign-in and clear the cookie; converse
-// verif: unwind=5 strlen=10 also=C08,C13
+// verif: unwind=5 strlen=10 also=C08,C13,C16
 func vh_C01_gate_proxy() {
 	g := vNewGate()
 	byp := g.bypass()
@@ -125,7 +131,7 @@ func vh_C01_gate_proxy() {
 }
 
 // the auth-only endpoint answers 202 only for a bypass or a valid, authorised session; 401/403 otherwise; never touches the upstream
-// verif: unwind=5 strlen=10 also=C08,C13
+// verif: unwind=5 strlen=10 also=C08,C13,C16
 func vh_C01_gate_authonly() {
 	g := vNewGate()
 	byp := g.bypass()
